@@ -350,6 +350,14 @@ def run(chk):
             nch += 1
             chk.ob("C04-D9.chain", o["function"], o["construct"], o["ok"], o["where"], o["detail"], o["expected"])
     chk.floor("C04-D9.chain", nch, 2, "chain-rule scaling sites shared with C10")
+    chk.rule("C04-D15.canonical", "every route of the API class hands its canonical coordinates to the grid object only: the dense, sparse and static-sparse hierarchical routines, evaluate and the "
+                                  "weights see the same (once transformed) abscissae, so the routes of the property can agree under a domain or conformal transform (obligations of C10-D10)")
+    ncn = 0
+    for o in sub10.obls:
+        if o["rule"] == "C10-D10.canonical":
+            ncn += 1
+            chk.ob("C04-D15.canonical", o["function"], o["construct"], o["ok"], o["where"], o["detail"], o["expected"])
+    chk.floor("C04-D15.canonical", ncn, 10, "consumers of canonical coordinates (shared with C10)")
     from rules import restart
     nrs = restart.restart_rule(chk, db, "C04-D11.restart")
     chk.floor("C04-D11.restart", nrs, 6, "restart-loop obligations of the wavelet solver (instantiations)")
@@ -364,6 +372,20 @@ def run(chk):
                               "coefficients (kind inference over the locals of the five integrate() routines; obligations shared with C10-D8)")
     nk4 = kinds.kinds_rule(chk, db, "C04-D13.kinds")
     chk.floor("C04-D13.kinds", nk4, 8, "products accumulated by the integrate() routines of the grid classes")
+    # differentiate(x) == differentiation weights times values: both routes assemble the gradient of a tensor basis by the product rule
+    from rules import product
+    from tsg.sym import NotClosedForm as _NCF
+    chk.rule("C04-D14.diffweights", "the differentiation weights of the Sequence, Global and Fourier grids are assembled by the product rule over the directions (loop nests folded for "
+                                    "num_dimensions = 1..4 with the one dimensional values and derivatives as symbols): component k is D_k * prod_{j != k} V_j, as in differentiate() "
+                                    "(obligations of C05-D5.product for the weight routines)")
+    ndw = 0
+    for name in ("TasGrid::GridSequence::getDifferentiationWeights", "TasGrid::GridGlobal::getDifferentiationWeights", "TasGrid::GridSequence::differentiate"):
+        ndw += sum(product.product_rule(chk, db, "C04-D14.diffweights", f_) for f_ in db.fns(name, required=False))
+    try:
+        ndw += product.fourier_weights_rule(chk, db, "C04-D14.diffweights")
+    except _NCF as e:
+        raise AnalysisBroken("C04-D14: %s" % e)
+    chk.floor("C04-D14.diffweights", ndw, 12, "folded product-rule nests of the weight routines")
     # integrate(), sum of quadrature weights times values, and coefficients times integrateHierarchicalFunctions() are documented to agree
     from rules import routing
     nrt = routing.routing_rule(chk, db, "C04-D10.integrals", only=("integral",))
